@@ -434,7 +434,9 @@ func (r *runner) handleInterrupt(
 		Inputs:         make(map[string]any),
 		SkipPreHandler: map[string]bool{},
 	}
-	if state, ok := ctx.Value(stateKey{}).(*internalState); ok {
+	// only a graph that generates its own state owns it: a nested graph without state of its own
+	// works on its parent's state object, which the parent's checkpoint carries
+	if state, ok := ctx.Value(stateKey{}).(*internalState); ok && r.runCtx != nil {
 		cp.State = state.state
 	}
 	intInfo := &InterruptInfo{
@@ -516,7 +518,9 @@ func (r *runner) handleInterruptWithSubGraphAndRerunNodes(
 		SkipPreHandler: skipPreHandler,
 		SubGraphs:      make(map[string]*checkpoint),
 	}
-	if state, ok := ctx.Value(stateKey{}).(*internalState); ok {
+	// only a graph that generates its own state owns it: a nested graph without state of its own
+	// works on its parent's state object, which the parent's checkpoint carries
+	if state, ok := ctx.Value(stateKey{}).(*internalState); ok && r.runCtx != nil {
 		cp.State = state.state
 	}
 	intInfo := &InterruptInfo{
